@@ -83,6 +83,11 @@ def Admissible (w : World) : Op → Prop
   | .inst n _ _ => w.findInst n = none
   | _ => True
 
+/-- every operation of the list is admissible when its turn comes -/
+def AdmissibleRun (T : Tables) : World → List Op → Prop
+  | _, [] => True
+  | w, op :: ops => Admissible w op ∧ AdmissibleRun T (step T w op) ops
+
 /-- validation behaviour of the accessibles of an owner, for any validation function of datatypes -/
 def validateH {V O : Type} (val : DTree → V → O) (w : World) (o : Owner) (v : V) : List (Name × Option O) :=
   (describeH w o).map (fun nv => (nv.1, (nv.2.bind (·.tree)).map (fun t => val t v)))
